@@ -349,3 +349,66 @@ def raise_missing(k):
 def witness_private(ctx):
     from .. import witness
     witness.check(ctx, ['UserKeyRepresentationIsPrivate'])
+
+
+SELECTING = (r'^std::iter::Iterator::(filter|filter_map|skip|skip_while|step_by|rev|nth|last|take|map_while|flat_map|chain|zip|'
+             r'scan|partition|max|min|max_by_key|min_by_key|find|position)$',)
+
+
+def check_restrict_prefix(ctx, F):
+    """The hierarchical restriction is positional: the kept attributes are the prefix of the ordered
+    dictionary that precedes the named attribute (selected by comparing *names*), plus that attribute."""
+    rb = F.fn('abe_policy::dimension::Dimension::restrict')
+    tw = rb.calls(r'^std::iter::Iterator::take_while$')
+    di = rb.calls(r'Dict::<K, V>::iter$')
+    ctx.check(len(tw) == 1 and len(di) >= 1, rb.key, 'prefix of the ordered dictionary',
+              'Dimension::restrict no longer selects the lower attributes as the prefix (take_while) of the ordered dictionary: '
+              'rank in a hierarchy is the position in the Dict, any other selection (by id, by filter) gives keys the wrong levels',
+              'Dict::iter().take_while(..)', rb.where())
+    other = [c for c in rb.calls(*SELECTING)]
+    ctx.check(not other, rb.key, 'no other selection', 'Dimension::restrict also selects attributes through %s (line %d)' % (
+        other[0].name if other else '', other[0].ln if other else 0), 'take_while only', rb.where())
+    for c in tw:
+        # receiver is Dict::iter of the hierarchy
+        sl = backward_slice(rb, [c.args[0]], follow_mutarg=False)
+        ctx.check(any(x in di for x in sl.calls) and not sl.has_call(*SELECTING), rb.key, 'take_while over Dict::iter',
+                  'the prefix is not taken directly over the ordered dictionary', 'receiver = attributes.iter()', c.where())
+        for (_i, cb, _rv) in lib.closure_args(F, c):
+            cmps = cb.calls(r'^std::cmp::PartialEq::(ne|eq)$')
+            okp = len(cmps) == 1 and 'String' in (cmps[0].self_ty or '')
+            if okp:
+                sides = [copy_chain_sources(cb, a, through_calls=IDENTITY_CALLS) for a in cmps[0].args]
+                elem = any(r[0] == 'param' and r[1] == 2 and [x for x in r[2] if not x.startswith('@')][:1] == ['0'] for s in sides for r in s)
+                cap = any(r[0] == 'param' and r[1] == 1 for s in sides for r in s)
+                okp = elem and cap and cmps[0].name == 'ne'
+            # the predicate must not look at the attribute value (id, hint, status)
+            reads_val = False
+            for b in sorted(cb.live_blocks()):
+                for st in cb.stmts(b):
+                    rv = st['rv']
+                    pl = rv['pl'] if rv['k'] == 'ref' else (op_place(rv['a']) if rv['k'] == 'use' and is_place(rv['a']) else None)
+                    if pl is not None and pl['l'] == 2:
+                        fp = [x for x in field_path(pl) if not x.startswith('@')]
+                        if fp[:1] == ['1']:
+                            reads_val = True
+            ctx.check(okp and not reads_val, rb.key, 'predicate: name != target name',
+                      'the restriction predicate is not `name != attr_name` on the dictionary key (it %s): the restriction must '
+                      'follow the order of the hierarchy, not properties of the attributes' % (
+                          'reads the attribute value' if reads_val else 'compares something else'),
+                      'compares the entry name with the captured target name', cb.where())
+    ins = rb.calls(r'Dict::<K, V>::insert$')
+    ctx.check(len(ins) == 1, rb.key, 'named attribute inserted', 'the named attribute itself is not added to the restriction', 'insert(attr_name, params)', rb.where())
+
+
+@rule('C02', 'restrict-prefix')
+def restrict_prefix(ctx):
+    check_restrict_prefix(ctx, ctx.F)
+
+
+@rule('C02', 'hierarchy-order')
+def hierarchy_order(ctx):
+    """A lower attribute never opens a higher one only if the rank order of a hierarchy survives edits and
+    round-trips: order-preserving removal in the ordered dictionary, and dimensions serialised in their own order."""
+    from . import c03, c13
+    c03.dict_remove_shifts(ctx)
+    c13.restricted(ctx, r'(dimension::Dimension|AccessStructure)$', [c13.agree, c13.order])
